@@ -188,6 +188,24 @@ UNITS["codec"] = {
     "safety": {"*": ["C16", "C15"]},
 }
 
+# serde wrappers (C15: "the serde form accepts and produces exactly the same byte strings")
+UNITS["serde"] = {
+    "prelude": PRELUDE_ALL + ["90_codec.rs", "97_serde.rs"],
+    "contracts": ["ctors.vc", "gens.vc", "codec.vc", "serde.vc"],
+    "pieces": types() + [
+        items("src/range_proof.rs", ["SERIALIZED_ELEMENT_SIZE", "FIXED_PROOF_ELEMENTS", "ENCODED_EXTENSION_SIZE"]),
+        text("spec/spec_codec.rs"),
+        fns("src/range_proof.rs", RP_HEADER, "RangeProof", stubs=["to_bytes", "from_bytes"], opdesugar=False, renames=DEFAULT_RENAMES_PLUS_TRYINTO, notryinto=True),
+        fns("src/range_proof.rs", RP_HEADER, "RangeProof", fns=["serialize"], impl_filter="implSerializeforRangeProof", opdesugar=False,
+            # R-FULLSLICE (site): `&v[..]` of a Vec is `v.as_slice()` (Verus has no specification for indexing by RangeFull)
+            subst=[("& self . to_bytes () [.. ]", "self . to_bytes () . as_slice ()")]),
+        fns("src/range_proof.rs", "impl RangeProofVisitor<P> {", "RangeProofVisitor", fns=["visit_bytes"], impl_filter="forRangeProofVisitor", opdesugar=False,
+            subst=[("RangeProof < T >", "RangeProof < P >")]),
+        text("spec/canaries_codec.rs"),
+    ],
+    "safety": {"*": ["C15"]},
+}
+
 # ---------------------------------------------------------------- U15-U16: prover
 PC_COMMIT = fns("src/generators/pedersen_gens.rs", "impl PedersenGens<P> {", "PedersenGens", impl_filter="impl PedersenGens<P>", fn_mono=["commit:T=Scalar"])
 
